@@ -1,10 +1,46 @@
-(* Props/C06.v — property theorems only (grows as the proofs land). *)
+(* Props/C06.v — property theorems only. *)
 From Coq Require Import List NArith ZArith.
-From N0 Require Import Base.PyStr Base.PyVal Xpath.Dec Xpath.Token Xpath.Find.
+From N0 Require Import Base.PyStr Base.PyVal Xpath.Dec Xpath.DecProofs Xpath.Token Xpath.TokenProofs
+  Xpath.Find Xpath.FindProofs Xpath.Write Xpath.SpecProofs Xpath.WalkProofs Xpath.FanoutProofs.
 Import ListNotations.
 
-(* aggregation of a fan-out: with return_lists the matches come back as a list in order;
-   without, a single match is unwrapped *)
+(* For a list of dict records reached by a concrete path P, 'P/[*]/f' returns the values
+   of f of exactly the records that have f, in list order (select_all), as a list for
+   item access / get and unwrapped when single for first (agg); when no record has f the
+   path is a miss (IndexError on item access, the default otherwise); the tree is
+   returned unchanged. *)
+Theorem C06_fanout_star :
+  forall fuel root x re rl dflt toks p c items fk f,
+  has_path_char x = true -> tokenize x = toks ++ [br s_star; fk] ->
+  walk root toks p (Lst c items) -> all_records items ->
+  split_name_index fk = Ok (f, IdxNone) -> plain_key f ->
+  2 * length toks + 3 <= fuel ->
+  dict_get_core fuel root x re rl dflt = Ok (root, fanout_result re rl dflt (select_all f items)).
+Proof. exact fanout_lookup. Qed.
+Print Assumptions C06_fanout_star.
+
+(* the shorthand 'P/f' (a name applied to a list) selects the same *)
+Theorem C06_fanout_shorthand :
+  forall fuel root x re rl dflt toks p c items fk f,
+  has_path_char x = true -> tokenize x = toks ++ [fk] ->
+  walk root toks p (Lst c items) -> all_records items ->
+  split_name_index fk = Ok (f, IdxNone) -> plain_key f ->
+  2 * length toks + 4 <= fuel ->
+  dict_get_core fuel root x re rl dflt = Ok (root, fanout_result re rl dflt (select_all f items)).
+Proof. exact fanout_shorthand_lookup. Qed.
+Print Assumptions C06_fanout_shorthand.
+
 Theorem C06_agg_lists : forall vals, agg true vals = Lst true vals.
-Proof. intros [|v [|w r]]; reflexivity. Qed.
+Proof. exact agg_lists. Qed.
 Print Assumptions C06_agg_lists.
+
+Theorem C06_first_unwraps_single : forall v, unwrap_single (LVal (agg false [v])) = unwrap_single (LVal v).
+Proof. exact first_single. Qed.
+Print Assumptions C06_first_unwraps_single.
+
+Theorem C06_nonvacuous :
+  all_records ex_recs /\ select_all [102]%N ex_recs = [Leaf (SInt 1); Leaf (SInt 3)] /\
+  dict_get_core (fuel_for ex_froot ex_fx) ex_froot ex_fx true true LDefault
+  = Ok (ex_froot, LVal (Lst true [Leaf (SInt 1); Leaf (SInt 3)])).
+Proof. exact fanout_example. Qed.
+Print Assumptions C06_nonvacuous.
